@@ -31,6 +31,13 @@ import EsbuildModel.Impl.CssBox
 import EsbuildModel.Impl.MiniJS
 import EsbuildModel.Impl.WatchDriver
 import EsbuildModel.Impl.LexNum
+import EsbuildModel.Impl.Metafile
+import EsbuildModel.Impl.CssImport
+import EsbuildModel.Impl.CssRules
+import EsbuildModel.Impl.C14FactsDriver
+import EsbuildModel.Impl.CrossChunkDriver
+import EsbuildModel.Impl.ExportMatchDriver
+import EsbuildModel.Impl.Lower3Wire
 
 open EsbuildModel
 
@@ -70,6 +77,15 @@ def dispatch (kernel : String) (args : List String) : String :=
   | "minijs" => MiniJS.driver args
   | "watch" => Watch.driver args
   | "lexnum" => LexNum.driver args
+  | "metafile" => Metafile.driver args
+  | "cssimport" => CssImport.driver args
+  | "cssrules" => CssRules.driver args
+  | "c14facts" => C14FactsDriver.driver args
+  | "crosschunk" => CrossChunk.driver args
+  | "exportmatch" => ExportMatch.driver args
+  | "objrest" => Lower3.driver args
+  | "objrestsem" => Lower3.semDriver args
+  | "objrestchk" => Lower3.chkDriver args
   | _ => "bad-kernel"
 
 partial def loop (hin hout : IO.FS.Stream) : IO Unit := do
